@@ -306,3 +306,13 @@ def unjson(e):
     if isinstance(e, str):
         return float(e)
     return e
+
+
+def _nan_eq(a, b):
+    """structural equality of decoded elements with NaN == NaN"""
+    if isinstance(a, list) and isinstance(b, list):
+        return len(a) == len(b) and all(_nan_eq(x, y) for x, y in zip(a, b))
+    if a is None or b is None or isinstance(a, list) or isinstance(b, list):
+        return a is None and b is None
+    fa, fb = float(a), float(b)
+    return fa == fb or (math.isnan(fa) and math.isnan(fb))
